@@ -331,8 +331,14 @@ struct CompressedPGMIndex<K, Epsilon, EpsilonRecursive, Floating>::CompressedLev
         auto intercepts_count = std::distance(first_intercept, last_intercept) + need_extra_segment + 1;
         sdsl::sd_vector_builder builder(max_intercept, intercepts_count);
         builder.set(0);
-        for (auto it = first_intercept + 1; it != last_intercept; ++it)
-            builder.set(std::clamp<int64_t>(*it, *(it - 1) + 1, prev_level_size - 1) - intercept_offset);
+        // The bitvector needs strictly increasing values: clamp each intercept against the value stored for the previous
+        // segment (which may itself have been raised above its raw intercept), leaving room for the segments that follow
+        auto stored = intercept_offset;
+        for (auto it = first_intercept + 1; it != last_intercept; ++it) {
+            auto room = int64_t(prev_level_size) - std::distance(it, last_intercept);
+            stored = std::clamp<int64_t>(*it, stored + 1, std::max<int64_t>(stored + 1, room));
+            builder.set(stored - intercept_offset);
+        }
         if (need_extra_segment)
             builder.set(max_intercept - 2);
         builder.set(max_intercept - 1);
